@@ -15,7 +15,7 @@ CHECKS = {
             "discipline (who-may-call, guard, bases first, mark only after setUp returned, forget in every exit, order "
             "gather->tear-down->set-up->run, no run after CanNotTearDown, final optional tear-down), plus the premises "
             "of the bases-first argument for gather_layers/order_by_bases. CanNotTearDown raised by tear_down_unneeded leaves run_layer (no handler on the way completes normally). Exhaustive over the CFG with exception edges; "
-            "not decided: trace-level 'exactly', algorithmic facts beyond the stated premises. A layer whose setUp returned is recorded before any further setUp is attempted (path rule).",
+            "not decided: trace-level 'exactly', algorithmic facts beyond the stated premises. A layer whose setUp returned is recorded before any further setUp is attempted (path rule). Each run sees only its own inputs (shared rule, rules/lifetime.py): no function memoised across runs, module-level containers emptied at the start of a run, no mutable class attribute shared through instances, no option with a mutable argparse default mutated in place.",
             "CFG path/dominance rules with exception edges + who-may-call", "4/C01"),
     'C02': ("Verdict data flow: the final verdict expression cannot be masked and is false when nothing went wrong; no "
             "lost verdict after EndRun (path-sensitive flag propagation); every bad-outcome channel (test results, layer "
@@ -25,7 +25,7 @@ CHECKS = {
             "(import of a test module, test_suite()) only KeyboardInterrupt leaves find_suites (SystemExit becomes an "
             "import failure); the list a layer failure is recorded in is the Runner's errors accumulator all the way up the "
             "call chain. Not decided: header look-alike lines written "
-            "straight to fd 2 by tests. What was recorded stays recorded: who-may-bind table of the Runner's accumulators, nothing removes entries; failures / errors / skipped keep their roles at every hand-over, including Thread(args=...) tuples.",
+            "straight to fd 2 by tests. What was recorded stays recorded: who-may-bind table of the Runner's accumulators, nothing removes entries; failures / errors / skipped keep their roles at every hand-over, including Thread(args=...) tuples. Each run sees only its own inputs (shared rule, rules/lifetime.py): no function memoised across runs, module-level containers emptied at the start of a run, no mutable class attribute shared through instances, no option with a mutable argparse default mutated in place.",
             "CFG path rules + three-valued evaluation of the verdict expression + exception-escape analysis", "4/C02"),
     'C04': ("Exception containment: interprocedural escape sets of everything a layer setUp/tearDown or a debugged test "
             "may raise (only MemoryError, and EndRun under post-mortem, leave run_layer / Runner.run_tests as Exception); "
@@ -38,19 +38,19 @@ CHECKS = {
             "balanced, ordered (bases first / exact reverse) and complete; the layer list is order_by_bases(gathered "
             "layers of this result's layer); hooks have one call site each, filtered only by hasattr of the hook called; "
             "the post-mortem loop that drives the result itself calls stopTest after every startTest on every exit (CFG "
-            "with exception edges). After every test the test object has the attributes it started with (typestate of test.__dict__ in the callbacks, or the copy/clear/update bracket of the loop of run_tests). Not decided: a hook raising half-way through the list.",
+            "with exception edges). After every test the test object has the attributes it started with (typestate of test.__dict__ in the callbacks, or the copy/clear/update bracket of the loop of run_tests). Not decided: a hook raising half-way through the list. Each run sees only its own inputs (shared rule, rules/lifetime.py): no function memoised across runs, module-level containers emptied at the start of a run, no mutable class attribute shared through instances, no option with a mutable argparse default mutated in place.",
             "typestate exploration over the unittest driver protocol + def-use provenance", "4/C05"),
     'C07': ("Wire agreement between child report writer and parent reader (header fields by role, body order, one line "
             "per entry, line-break discipline), fail-closed reader on every exceptional exit, channel separation and "
             "drain-thread ordering, done/kill/reap on every exit; the parent waits for every child (a thread leaves the "
             "running set only when it is the one found dead; polling loop until nothing is ready or running). Not "
             "decided: byte-level noise on fd 2, crash timing, "
-            "real termination (scheduling/OS). Nothing prints after the child's report: the feature whose report() closes sys.stdout comes after every feature whose report() can print in a child (guards evaluated for a child).",
+            "real termination (scheduling/OS). Nothing prints after the child's report: the feature whose report() closes sys.stdout comes after every feature whose report() can print in a child (guards evaluated for a child). Each run sees only its own inputs (shared rule, rules/lifetime.py): no function memoised across runs, module-level containers emptied at the start of a run, no mutable class attribute shared through instances, no option with a mutable argparse default mutated in place. A line of three integers is accepted as the header whatever the numbers are (no test on the parsed counters inside the header search loop). Helpers a refactoring moved into another module are inlined across modules before the reader is analysed.",
             "writer/reader cross-check + CFG must-pass-through with exception edges", "4/C07"),
     'C12': ("Argument roles of summary/totals (sum-of-lengths terms), list routing, accumulator agreement of the "
             "in-process and subprocess paths, testsRun counter on every protocol word (symbolic counter in the typestate "
             "exploration), wire agreement, number/label agreement in every formatter. Not decided: equality with the "
-            "ground truth of a concrete run. The Runner's accumulators are bound only where they are created and keep their roles at every hand-over.",
+            "ground truth of a concrete run. The Runner's accumulators are bound only where they are created and keep their roles at every hand-over. Each run sees only its own inputs (shared rule, rules/lifetime.py): no function memoised across runs, module-level containers emptied at the start of a run, no mutable class attribute shared through instances, no option with a mutable argparse default mutated in place. The second component of an accumulator entry is opaque to every reader (traceback text / exc_info triple / None by producer).",
             "def-use role tables + sibling cross-check + typestate counter", "4/C12"),
     'C13': ("Std streams: on every result-event sequence (incl. none = KeyboardInterrupt) sys.stdout/sys.stderr are the "
             "original objects after stopTest; no callback fails on the stream state; captured text reaches exactly the "
@@ -62,7 +62,7 @@ CHECKS = {
     'C16': ("--stop-on-error: every callback that reports a failure/error (derived set) sets shouldStop on every protocol "
             "word; in function run_tests the check dominates each test execution and, flow-sensitively, no execution is "
             "reachable after a stop (including through the --repeat back edge and a fresh result object); the layer loop "
-            "is left after recorded failures or errors; final tear-down and verdict. A layer whose setUp returned is recorded before a further setUp is attempted, so a layer set-up failure leaves no layer behind that the final tear-down does not know.",
+            "is left after recorded failures or errors; final tear-down and verdict. A layer whose setUp returned is recorded before a further setUp is attempted, so a layer set-up failure leaves no layer behind that the final tear-down does not know. The report hooks read the recorded entries without assuming a type for their second component, so the totals line and the verdict are still produced after a layer set-up failure.",
             "typestate exploration + flow-sensitive CFG reachability", "4/C16"),
     'C03': ("Selection structure: the selection state has exactly four writers (init, register, shuffle same-key, "
             "filter whole-layer removal); run loop, listing and resume_tests consume ordered_layers() in order; nothing "
@@ -71,7 +71,7 @@ CHECKS = {
             "layer started once, empty first layer iff -j N parent; child command line grammar agrees between writer and "
             "reader; feature order Find < Shuffle < Filter < Listing; the suite walk visits every member unconditionally; a "
             "child keeps exactly the layer whose name equals --resume-layer. The positional module/test filters reach options.module/options.test in all 20 cases of a finite domain (guard evaluation). Not decided: equality of the executed multiset with "
-            "an independent computation of the selection. A layer subprocess is started in the directory fixed at start-up (def-use chain Popen(cwd=) <- ... <- Runner(cwd=), path rule at every construction of a Runner); an explicitly given --shuffle-seed is the seed used (abstract interpretation over {None, 0, non-zero}).",
+            "an independent computation of the selection. A layer subprocess is started in the directory fixed at start-up (def-use chain Popen(cwd=) <- ... <- Runner(cwd=), path rule at every construction of a Runner); an explicitly given --shuffle-seed is the seed used (abstract interpretation over {None, 0, non-zero}). Each run sees only its own inputs (shared rule, rules/lifetime.py): no function memoised across runs, module-level containers emptied at the start of a run, no mutable class attribute shared through instances, no option with a mutable argparse default mutated in place. The match-everything default ['.'] of options.module / options.test is stored only after the positional filters were merged.",
             "who-may-write tables + CFG once-per-iteration rules + call-graph reachability + writer/reader agreement", "4/C03"),
     'C06': ("-j N structure: the only thread start is guarded by len(running) < processes in a while loop, started "
             "threads are recorded before the bound is re-tested, threads leave only when not alive and the element removed "
@@ -80,13 +80,13 @@ CHECKS = {
             "list, under result.done, cursor over results in the caller's layer order (the parameter is not re-ordered), reap "
             "before flush; deferred collectors never "
             "write to a stream and keep every non-dot line, the immediate one only for processes == 1. Not decided: "
-            "outcome equality with the sequential run, real schedules, liveness. The guards of the only thread.start() site, evaluated over (running, N, queued) in 0..3 x 1..3 x 0..3: never start at the bound or with an empty queue, always start while a slot is free and a layer is queued.",
+            "outcome equality with the sequential run, real schedules, liveness. The guards of the only thread.start() site, evaluated over (running, N, queued) in 0..3 x 1..3 x 0..3: never start at the bound or with an empty queue, always start while a slot is free and a layer is queued. The result objects the flush loop tests for truth define neither __len__ nor __bool__.",
             "guard-literal and dominance rules on the CFG of resume_tests + effect classification of collector classes", "4/C06"),
     'C08': ("The predicate returned by build_filtering_func is exactly any(positives) and not any(negatives) applied to "
             "its argument (polarity +/-, order-insensitive); symbolic execution of the pattern loop shows '!' patterns go, "
             "with exactly one character removed, to the negated list and others unchanged to the positive list as "
             "re.compile(p).search; only-negated default; the pattern lists are used only through build_filtering_func; "
-            "predicates are routed and used with the right polarity. Not decided: regex semantics on concrete names.",
+            "predicates are routed and used with the right polarity. Not decided: regex semantics on concrete names. Each run sees only its own inputs (shared rule, rules/lifetime.py): no function memoised across runs, module-level containers emptied at the start of a run, no mutable class attribute shared through instances, no option with a mutable argparse default mutated in place. The positional filters restrict the pattern lists (default after merge, shared with C03.R10).",
             "polarity calculus + symbolic path enumeration of the classification loop + def-use", "4/C08"),
     'C09': ("Nearest-wins data flow of level/layer through tests_from_suite; the level predicate extracted from the guard "
             "literals of every yield equals the specification on the whole finite domain of order types of (level, "
@@ -98,32 +98,32 @@ CHECKS = {
             "and unit-first arguments (pre-order gather over all bases, one reversal, first-occurrence de-duplication, "
             "unit layer excluded from the key, descending sort); single ordering source; a child keeps exactly its own "
             "layer (each layer once across processes). resume_tests starts the per-layer threads in creation order over the ordered layers parameter (fill one end, drain the other). NOT decided: that the order is "
-            "bases-first/unit-first for every graph (induction over data), tie behaviour.",
+            "bases-first/unit-first for every graph (induction over data), tie behaviour. Each run sees only its own inputs (shared rule, rules/lifetime.py): no function memoised across runs, module-level containers emptied at the start of a run, no mutable class attribute shared through instances, no option with a mutable argparse default mutated in place.",
             "order-provenance rules + structural premises", "4/C10"),
     'C11': ("Shuffle: the per-layer list is list(suite) modified only by mirrored swap assignments and stored back "
             "under the same key; layers visited in sorted order; local random.Random seeded from self.seed, only seed()/"
             "random() used; feature order Find < Shuffle < Filter < Listing and the shuffling hook runs no later than the "
             "filtering hook in the hook sequence of Runner.run; clock-derived seed recorded on the options "
             "and forwarded to children; seed always reported. The shuffle hook shuffles on every normal path and no option other than the shuffle options decides whether a layer is shuffled or a random number drawn (same order in listing, -j parent and children). Not decided: index arithmetic of the Fisher-Yates step, "
-            "the float stream of random(). An explicitly given seed is the seed used for every integer, 0 included (abstract interpretation of get_options' assignments and Shuffle.__init__ over {None, 0, non-zero}).",
+            "the float stream of random(). An explicitly given seed is the seed used for every integer, 0 included (abstract interpretation of get_options' assignments and Shuffle.__init__ over {None, 0, non-zero}). The seed is reported in every mode that shuffles, listing included (dominating literals of the report call; only 'not in a layer subprocess' is accepted).",
             "mutation-shape rule (swap-only) + who-may-call on the RNG + def-use of the seed", "4/C11"),
     'C14': ("Discovery structure: directory list sorted in place before every walk step is yielded and only filtered "
             "afterwards, files yielded from sorted(); de-duplication by path; a module rejected by --module can never "
             "reach import_name (CFG with the predicate fixed to false), who-may-import table; in-place pruning by "
             "identifier/IGNORE_FOLDERS/ignore_dir before the walk resumes; --package restricts the walk; prefixes "
-            "sorted longest first. Prefixes are matched at a directory boundary (stored with the separator <-> startswith / cut length of the consumers); 32-case decision table of which files of a directory are recorded as test modules. Not decided: symlinks, what the regexes match on concrete names. options.ignore_dir contains the built-in version-control names whether or not --ignore_dir is given (abstract evaluation of the argparse declaration and of get_options); with --package every directory of every named package is searched (the loops are left only when exhausted).",
+            "sorted longest first. Prefixes are matched at a directory boundary (stored with the separator <-> startswith / cut length of the consumers); 32-case decision table of which files of a directory are recorded as test modules. Not decided: symlinks, what the regexes match on concrete names. options.ignore_dir contains the built-in version-control names whether or not --ignore_dir is given (abstract evaluation of the argparse declaration and of get_options); with --package every directory of every named package is searched (the loops are left only when exhausted). Every symlinked sub-directory is walked (only the islink test guards the recursion); the positional module filter restricts the modules imported.",
             "order-provenance + CFG reachability under a fixed predicate value + who-may-call", "4/C14"),
     'C15': ("Stale bytecode: the only destructive file-system call reachable from discovery is the os.unlink of "
             "remove_stale_bytecode (all destructive sites of the package tabulated); nothing is walked or deleted under "
             "keepbytecode, usecompiled implies it; the unlink guard is exactly suffix in {.pyc,.pyo} and not source-"
             "beside-it; target is join(dirname, file) of the same walk step; __pycache__ pruned; no continue of the walk loop skips a directory (other than for an empty listing); loops complete. Not "
-            "decided: name edge cases, case-folding file systems. The set of ignored directory names contains the built-in names for every option vector (shared with C14).",
+            "decided: name edge cases, case-folding file systems. The set of ignored directory names contains the built-in names for every option vector (shared with C14). Every symlinked sub-directory is walked (shared with C14.R4).",
             "effect ownership over the call graph + guard-literal analysis", "4/C15"),
     'C17': ("XML: every test-derived string reaching Element.set/.text passes a sanitiser whose regex character class "
             "(computed from the regex syntax tree) covers all code points outside XML 1.0 Char; ASCII-safe serialisation; "
             "tests == len(records), failure/error counters and children created under the same field and attached to the "
             "serialised tree, one record per "
-            "outcome; wrapper overrides record once and forward. constant indexes into split results are in range for every message (R6); the report file name is an injective function of the suite name (R7). Not decided: subtest class attribution. Every outcome can be recorded: the functions that name a test for the report do not fail on an absent value (nullable-result rule); in a layer subprocess nothing in the report phase can fail before the reports are written (nothing prints after the child closed stdout).",
+            "outcome; wrapper overrides record once and forward. constant indexes into split results are in range for every message (R6); the report file name is an injective function of the suite name (R7). Not decided: subtest class attribution. Every outcome can be recorded: the functions that name a test for the report do not fail on an absent value (nullable-result rule); in a layer subprocess nothing in the report phase can fail before the reports are written (nothing prints after the child closed stdout). writeXMLReports is called once, from Runner.run after the test phase, and the recorded suites are never forgotten.",
             "taint-to-sink rule with a statically computed character class + def-use", "4/C17"),
     'C18': ("Global state: teardown loops on every exit after the test phase (exception edges); for each catalogued "
             "mutator in a feature set-up hook the previous value is saved from the matching getter first and restored "
@@ -134,7 +134,7 @@ CHECKS = {
     'C19': ("Thread report: per-test snapshot freshness and same enumerator on both sides on every protocol word "
             "(typestate); the guard of the report is exactly alive(+), in-snapshot(-), any re.match ignore(-) and "
             "nothing else; list passed whole with the test that ended; the ident table of enumerate() is built afresh per call (no cache across ident re-use); enumerate covers every ident of "
-            "sys._current_frames, proxy equality by ident. Not decided: thread timing, identifier reuse. Every formatter's test_threads shows the list it was given (element-preserving operations only).",
+            "sys._current_frames, proxy equality by ident. Not decided: thread timing, identifier reuse. Every formatter's test_threads shows the list it was given (element-preserving operations only). A Thread object is never tested for truth (membership / is None decide the DummyThread fallback).",
             "typestate exploration + guard-literal polarity", "4/C19"),
     'C20': ("Necessary conditions of Tarjan's algorithm on every path of sccs(): all reads of the neighbour map are total; "
             "unvisited/state and stacked/stack invariants; yield only under the root test made on the node returned "
@@ -144,7 +144,7 @@ CHECKS = {
             "passed on every return to a parent (unless root) and for every stacked neighbour, the component is popped "
             "down to exactly the root (pop loop or index scan + slice removal); the return visit is selected by identity with a fresh sentinel scheduled below the neighbours; every set kept in the neighbour map is an object created by the graph itself "
             "(freshness over reaching definitions, no alias of a caller's set). NOT decided and not claimed: that these conditions are sufficient, i.e. that the "
-            "components are exactly the SCCs for every graph (algorithm correctness over data). The graph only grows: an entry of the neighbour map is assigned only where the key is known to be absent, everything else is a union; no removal, no bulk overwrite.",
+            "components are exactly the SCCs for every graph (algorithm correctness over data). The graph only grows: an entry of the neighbour map is assigned only where the key is known to be absent, everything else is a union; no removal, no bulk overwrite. The node set and the neighbour map are bound in __init__ only (aliases and bound methods taken from them stay valid).",
             "forward must-alias data-flow analysis over the CFG + contradiction rule on map accesses + structural invariants", "4/C20"),
 }
 
